@@ -1,2 +1,7 @@
 #!/bin/sh
-exit 0
+# MANIFEST.setup_cmd: build the instrumenter and the instrumented check binary
+# from files on disk only (offline); warms the build cache under /verif/.cache.
+set -e
+cd "$(dirname "$0")"
+./check build >/dev/null
+echo "setup ok"
